@@ -332,8 +332,9 @@ def run(chk):
          'the merged field ignores the type known on one side', fi=uf)
 
   chk.rule('C16-R3', 'Unify compresses both reference chains before the '
-           'identity test; Target / WeMustGoDeeper are the chain followers',
-           min_instances=2)
+           'identity test; Target / WeMustGoDeeper are the chain followers; only '
+           'Unify, UnifyFriendlyRecords, CloseRecord and the constructor write '
+           '`.target`', min_instances=5)
   u = FnView(repo, 'reference_algebra.Unify')
   whiles = [n for n in u.cfg.stmt_nodes() if isinstance(u.cfg.stmt[n], ast.While) and
             'WeMustGoDeeper' in norm(u.cfg.stmt[n].test)]
@@ -345,6 +346,26 @@ def run(chk):
   chk.ob('C16-R3', ok, None, 'both chains followed to their end before id(a) == id(b)',
          'references are compared / updated before their chains are followed: '
          'two references to the same type are unified against each other', fi=u.fi)
+  m = repo.by_name('reference_algebra')
+  owners = {'TypeReference.__init__', 'TypeReference.CloseRecord', 'Unify',
+            'UnifyFriendlyRecords'}
+  writers = {}
+  for q, f in m.funcs.items():
+    for x in walk_local(f.node):
+      if isinstance(x, (ast.Assign, ast.AugAssign)):
+        tgts = x.targets if isinstance(x, ast.Assign) else [x.target]
+        for t in tgts:
+          for tt in (t.elts if isinstance(t, ast.Tuple) else [t]):
+            if isinstance(tt, ast.Attribute) and tt.attr == 'target':
+              writers.setdefault(q, x)
+  if not {'Unify', 'UnifyFriendlyRecords'} <= set(writers):
+    raise AnalysisError('writers of .target not recognised: %s' % sorted(writers))
+  for q, x in sorted(writers.items()):
+    chk.ob('C16-R3', q in owners, None, '%s may redirect a reference' % q,
+           '%s assigns `.target`: observers (Target, VeryConcreteType, '
+           'RenderType, IsBadType ...) must not change what a reference '
+           'denotes - a lookup between two unifications would change the '
+           'result' % q, fi=m.funcs[q], node=x)
   tg = repo.func('reference_algebra.TypeReference.Target')
   ok = any(isinstance(x, ast.While) and 'WeMustGoDeeper' in norm(x.test)
            for x in walk_local(tg.node))
